@@ -18,6 +18,7 @@ import (
 	"github.com/paulmach/osm"
 	"github.com/paulmach/osm/annotate"
 
+	"verif/internal/eq"
 	"verif/internal/fw"
 	"verif/internal/gen"
 	"verif/internal/mon"
@@ -81,10 +82,11 @@ type c14Graph struct {
 	hist     map[osm.RelationID]osm.Relations
 	adj      map[osm.RelationID][]osm.RelationID // distinct relation-typed refs over all versions
 	nHist    int
-	cyclic   bool   // some relation with history reaches itself
-	relSlots int    // relation-typed member slots over all versions
-	linear   bool   // every relation has at most one relation-typed member slot: a chain / "rho"
-	label    string // stable key of a generated family member whose text would be too long
+	cyclic   bool       // some relation with history reaches itself
+	relSlots int        // relation-typed member slots over all versions
+	linear   bool       // every relation has at most one relation-typed member slot: a chain / "rho"
+	label    string     // stable key of a generated family member whose text would be too long
+	lib      [5]*c14Lib // library-built datasources of this graph, by mode (1..4), built lazily
 	reachM   map[osm.RelationID]map[osm.RelationID]bool
 }
 
@@ -592,10 +594,139 @@ func c14RandGraph(r *gen.R, maxN int) *c14Graph {
 }
 
 // ---------------------------------------------------------------------------------------
+// library-built datasources: the graph handed over as an osm.OSM or osm.Change value and turned
+// into a datasource by the library's own HistoryDatasource(). The truth stays the graph.
+
+var c14LibModes = []string{"fake", "osm-grouped", "osm-interleaved", "change-spread", "change-spread-interleaved"}
+
+type c14Lib struct {
+	ds     *osm.HistoryDatasource
+	input  any    // the *osm.OSM or *osm.Change the datasource was built from
+	before string // canonical dump of input before the datasource was built
+}
+
+// c14BuildLib builds the datasource of mode for g from freshly allocated relation values.
+// Interleaved modes put the versions of one relation in non-adjacent places of the list (the
+// per-relation version order is kept); change modes spread the versions of one relation over
+// create / modify / delete (which the library adds in that order), with Visible preset to what
+// the library assigns (true, true, false) so that building must not alter the input at all.
+func c14BuildLib(g *c14Graph, mode int) *c14Lib {
+	type ver struct {
+		node, v int
+	}
+	rel := func(x ver) *osm.Relation {
+		nd := g.nodes[x.node]
+		return &osm.Relation{ID: nd.id, Version: x.v + 1, Visible: true, Members: append(osm.Members(nil), nd.versions[x.v]...)}
+	}
+	st := uint64(len(g.desc))*0x9E3779B97F4A7C15 + uint64(mode)
+	rnd := func(n int) int {
+		st ^= st << 13
+		st ^= st >> 7
+		st ^= st << 17
+		return int(st % uint64(n))
+	}
+	// order of (relation, version) pairs
+	var seq []ver
+	interleaved := mode == 2 || mode == 4
+	if !interleaved {
+		for i, nd := range g.nodes {
+			for v := range nd.versions {
+				seq = append(seq, ver{i, v})
+			}
+		}
+	} else {
+		next := make([]int, len(g.nodes))
+		var open []int
+		for i, nd := range g.nodes {
+			if len(nd.versions) > 0 {
+				open = append(open, i)
+			}
+		}
+		last := -1
+		for len(open) > 0 {
+			k := rnd(len(open))
+			if len(open) > 1 && open[k] == last {
+				k = (k + 1) % len(open) // keep the versions of one relation apart when possible
+			}
+			i := open[k]
+			seq = append(seq, ver{i, next[i]})
+			last = i
+			next[i]++
+			if next[i] == len(g.nodes[i].versions) {
+				open = append(open[:k], open[k+1:]...)
+			}
+		}
+	}
+	l := &c14Lib{}
+	if mode <= 2 {
+		o := &osm.OSM{}
+		for _, x := range seq {
+			o.Relations = append(o.Relations, rel(x))
+		}
+		l.input = o
+		l.before = eq.Dump(o)
+		l.ds = o.HistoryDatasource()
+		return l
+	}
+	ch := &osm.Change{Create: &osm.OSM{}, Modify: &osm.OSM{}, Delete: &osm.OSM{}}
+	for _, x := range seq {
+		k := len(g.nodes[x.node].versions)
+		r := rel(x)
+		switch {
+		case x.v == 0 && (k > 1 || rnd(3) == 0) && rnd(4) != 0:
+			ch.Create.Relations = append(ch.Create.Relations, r)
+		case x.v == k-1 && rnd(2) == 0:
+			r.Visible = false
+			ch.Delete.Relations = append(ch.Delete.Relations, r)
+		default:
+			ch.Modify.Relations = append(ch.Modify.Relations, r)
+		}
+	}
+	l.input = ch
+	l.before = eq.Dump(ch)
+	l.ds = ch.HistoryDatasource()
+	return l
+}
+
+// libFor returns (building it on first use) the library-built datasource of mode and checks
+// that building it left the input value untouched.
+func (x *c14X) libFor(g *c14Graph, mode int) *c14Lib {
+	if g.lib[mode] == nil {
+		l := c14BuildLib(g, mode)
+		g.lib[mode] = l
+		x.res.Add("library_datasources_built", 1)
+		x.res.Put("datasource_kinds", c14LibModes[mode])
+		x.checkLibInput(g, mode, "building the datasource")
+	}
+	return g.lib[mode]
+}
+
+func (x *c14X) checkLibInput(g *c14Graph, mode int, when string) {
+	l := g.lib[mode]
+	if l == nil {
+		return
+	}
+	if after := eq.Dump(l.input); after != l.before {
+		x.curLib = mode
+		x.violate("input-modified", g, "%s (%s) altered the OSM / Change value it was built from:\n%s", when, c14LibModes[mode], eq.Diff(l.before, after))
+		x.curLib = 0
+		l.before = after
+	}
+}
+
+// checkLibInputs is called when all scenarios of a graph have run.
+func (x *c14X) checkLibInputs(g *c14Graph) {
+	for mode := 1; mode <= 4; mode++ {
+		x.checkLibInput(g, mode, "iterating on the datasource")
+	}
+}
+
+// ---------------------------------------------------------------------------------------
 // datasource = observation and injection point on the library's walker goroutine
 
 type c14DS struct {
 	hist      map[osm.RelationID]osm.Relations
+	inner     *osm.HistoryDatasource // library-built datasource answering instead of hist
 	budget    int64
 	cancelAt  int64 // cancel the external context during the k-th call
 	cancel    context.CancelFunc
@@ -652,6 +783,13 @@ func (d *c14DS) RelationHistory(ctx context.Context, id osm.RelationID) (osm.Rel
 	if d.errAt > 0 && n >= d.errAt {
 		return nil, errC14Injected
 	}
+	if d.inner != nil {
+		h, err := d.inner.RelationHistory(ctx, id)
+		if err != nil && d.inner.NotFound(err) {
+			return nil, errC14NotFound
+		}
+		return h, err
+	}
 	h, ok := d.hist[id]
 	if !ok {
 		if n%2 == 0 {
@@ -697,6 +835,7 @@ type c14X struct {
 	res     *fw.Result
 	sigs    map[string]bool
 	keys    map[string]bool
+	curLib  int  // datasource mode of the scenario being settled (violation class suffix)
 	abort   bool // budget exhausted, deadlock or leak seen: skip the rest of the case
 	trace   bool
 	sampled bool
@@ -706,6 +845,9 @@ type c14X struct {
 }
 
 func (x *c14X) violate(class string, g *c14Graph, format string, a ...any) {
+	if x.curLib > 0 {
+		class += "-libds" // observed on a datasource the library built itself from an OSM / Change value
+	}
 	key := "C14/" + class + "/" + g.key()
 	if x.keys[key] || len(x.keys) >= 40 {
 		return
@@ -746,11 +888,12 @@ type c14Scn struct {
 	plan      int
 	ctxAware  bool
 
+	lib        int  // 0: the harness' own datasource; 1..4: library-built (c14LibModes)
 	hardBudget bool // exhausting the datasource budget is a non-termination verdict (set by run)
 }
 
 func (s *c14Scn) String() string {
-	return fmt.Sprintf("requested=%s stop=%q j=%d alsoClose=%v plan=%d ctxAware=%v", c14IDs(s.req), s.stop, s.j, s.alsoClose, s.plan, s.ctxAware)
+	return fmt.Sprintf("requested=%s stop=%q j=%d alsoClose=%v plan=%d ctxAware=%v datasource=%s", c14IDs(s.req), s.stop, s.j, s.alsoClose, s.plan, s.ctxAware, c14LibModes[s.lib])
 }
 
 // c14Leak is a goroutine with annotate frames found after the point where none may be left.
@@ -853,6 +996,8 @@ func (x *c14X) run(s *c14Scn) c14Out {
 	parent, cancel := context.WithCancel(context.Background())
 	defer cancel()
 	plan := c14Plans[s.plan]
+	x.curLib = s.lib
+	defer func() { x.curLib = 0 }()
 	ds := &c14DS{hist: g.hist, budget: c14BudgetBig, cancel: cancel, ctxAware: s.ctxAware, perturb: plan[0],
 		spin: uint64(len(g.desc))*2654435761 + uint64(s.j) + 88172645463325252}
 	switch {
@@ -864,6 +1009,9 @@ func (x *c14X) run(s *c14Scn) c14Out {
 		// chain and must stop when it repeats, i.e. after <= relations+1 lookups per request
 		ds.budget = 50 * int64(len(g.nodes)+2)
 		s.hardBudget = true
+	}
+	if s.lib > 0 {
+		ds.inner = x.libFor(g, s.lib).ds
 	}
 	st := &c14State{ds: ds}
 	var out c14Out
@@ -1194,6 +1342,9 @@ func (x *c14X) judge(s *c14Scn, out *c14Out, full bool) {
 	if missReq {
 		sig += "/nohistreq"
 	}
+	if s.lib > 0 {
+		sig += "/libds"
+	}
 	if len(g.nodes) > 0 && !strings.HasPrefix(g.shape, "exh") {
 		sig += "/rand"
 	}
@@ -1241,29 +1392,29 @@ func (g *c14Graph) allIDs() []osm.RelationID {
 
 // stopSweep runs, for one request list, Close / cancel after every number of Next calls and
 // cancellation / failure inside every datasource call of the undisturbed run.
-func (x *c14X) stopSweep(g *c14Graph, req []osm.RelationID, salt uint64, maxK int) {
+func (x *c14X) stopSweep(g *c14Graph, req []osm.RelationID, salt uint64, maxK int, lib int) {
 	plan := func(k int) int { return c14PlanFor(salt*31 + uint64(k)*7) }
-	full := x.run(&c14Scn{g: g, req: req, plan: plan(0)})
+	full := x.run(&c14Scn{g: g, req: req, lib: lib, plan: plan(0)})
 	L := len(full.emitted)
 	if L > 2*g.nHist+2 {
 		L = 2*g.nHist + 2
 	}
 	for j := 0; j <= L+1; j++ {
-		x.run(&c14Scn{g: g, req: req, stop: "close", j: j, plan: plan(j + 1)})
-		x.run(&c14Scn{g: g, req: req, stop: "cancel", j: j, alsoClose: (uint64(j)+salt)%2 == 0, plan: plan(j + 2), ctxAware: (uint64(j)+salt)%3 == 0})
-		x.run(&c14Scn{g: g, req: req, stop: "cancel-nonext", j: j, alsoClose: (uint64(j)+salt)%2 == 1, plan: plan(j + 3)})
+		x.run(&c14Scn{g: g, req: req, lib: lib, stop: "close", j: j, plan: plan(j + 1)})
+		x.run(&c14Scn{g: g, req: req, lib: lib, stop: "cancel", j: j, alsoClose: (uint64(j)+salt)%2 == 0, plan: plan(j + 2), ctxAware: (uint64(j)+salt)%3 == 0})
+		x.run(&c14Scn{g: g, req: req, lib: lib, stop: "cancel-nonext", j: j, alsoClose: (uint64(j)+salt)%2 == 1, plan: plan(j + 3)})
 	}
-	x.run(&c14Scn{g: g, req: req, stop: "precancel", alsoClose: salt%2 == 0, plan: plan(5)})
+	x.run(&c14Scn{g: g, req: req, lib: lib, stop: "precancel", alsoClose: salt%2 == 0, plan: plan(5)})
 	K := int(full.dsCalls)
 	step := 1
 	if K > maxK {
 		step = (K + maxK - 1) / maxK
 	}
 	for k := 1; k <= K; k += step {
-		x.run(&c14Scn{g: g, req: req, stop: "dscancel", j: k, alsoClose: (uint64(k)+salt)%2 == 0, plan: plan(k + 4), ctxAware: (uint64(k)+salt)%3 == 1})
+		x.run(&c14Scn{g: g, req: req, lib: lib, stop: "dscancel", j: k, alsoClose: (uint64(k)+salt)%2 == 0, plan: plan(k + 4), ctxAware: (uint64(k)+salt)%3 == 1})
 		// a failing datasource is outside the property: run (must end, Close must return), only
 		// the sequence oracles on what was emitted are evaluated
-		x.run(&c14Scn{g: g, req: req, stop: "dserr", j: k, plan: plan(k + 6)})
+		x.run(&c14Scn{g: g, req: req, lib: lib, stop: "dserr", j: k, plan: plan(k + 6)})
 	}
 }
 
@@ -1317,14 +1468,30 @@ func c14Exec(c fw.Case) *fw.Result {
 					if len(req) == n {
 						x.sample(g, req, out)
 					}
+					if layout != 2 {
+						continue
+					}
+					// the multi-version layout again on datasources the library builds itself:
+					// all four kinds for n <= 3, one rotating kind for n = 4
+					for mode := 1; mode <= 4; mode++ {
+						if n <= 3 || mode == 1+int((uint64(gi)+uint64(li))%4) {
+							x.run(&c14Scn{g: g, req: req, lib: mode, plan: c14PlanFor(uint64(gi)*131 + uint64(li) + uint64(mode))})
+						}
+					}
 				}
+				x.checkLibInputs(g)
 				continue
 			}
 			salt := uint64(gi)*2654435761 + uint64(layout)
-			x.stopSweep(g, ids, salt, 12)
+			x.stopSweep(g, ids, salt, 12, 0)
 			if alt := lists[(salt>>3)%uint64(len(lists))]; len(alt) > 0 && len(alt) < n {
-				x.stopSweep(g, alt, salt+1, 12)
+				lib := 0
+				if layout == 2 {
+					lib = 1 + int(salt%4)
+				}
+				x.stopSweep(g, alt, salt+1, 12, lib)
 			}
+			x.checkLibInputs(g)
 		}
 	case "deep":
 		for v := from; v < from+count; v++ {
@@ -1419,14 +1586,17 @@ func c14Exec(c fw.Case) *fw.Result {
 				}
 				for li, req := range lists {
 					out := x.run(&c14Scn{g: g, req: req, plan: c14PlanFor(r.Uint64()), ctxAware: li%5 == 4})
+					x.run(&c14Scn{g: g, req: req, lib: 1 + (li+int(k))%4, plan: c14PlanFor(r.Uint64())})
 					if li == 0 {
 						x.sample(g, req, out)
 					}
 				}
+				x.checkLibInputs(g)
 				continue
 			}
-			x.stopSweep(g, perm(g.allIDs()), r.Uint64(), 24)
-			x.stopSweep(g, subset(), r.Uint64(), 24)
+			x.stopSweep(g, perm(g.allIDs()), r.Uint64(), 24, 0)
+			x.stopSweep(g, subset(), r.Uint64(), 24, 1+int(k)%4)
+			x.checkLibInputs(g)
 		}
 	}
 	return res
@@ -1493,6 +1663,7 @@ func init() {
 			"ids small, medium, up to 2^40 or of mixed magnitude within one graph (small, >2^31, >2^32, 2^40-1, 2^40, 2^40+k, 2^62+k, negative small and large, MinInt64+1; never 0), 1-4 versions with different members, node/way members whose refs equal relation ids, refs to relations without history; request lists: all / reversed / random orders, random subsets with unknown, history-less and repeated ids, every order of a 3-subset. " +
 			"Deep family (seed-independent): 352 chains of depth 99..300 (straddling the library's preallocated path capacity of 100), acyclic or closed at the bottom by a reference back to depth 0, 1, d-1, d-2, d/2, d-100 or by a 3-ring, plain / 2^40-straddling ids, plain / annotated members, with stops deep inside the recursion. " +
 			"Relation members carry annotation fields (Version, ChangesetID, Orientation, Lat/Lon, Role) in enumerated layout 1 and in 40% of the random graphs. " +
+			"Datasource dimension: besides the harness' own datasource, library-built osm.HistoryDatasources from an OSM value (versions grouped / interleaved) and from a Change value (versions spread over create/modify/delete, grouped / interleaved) for the multi-version enumerated layout, the random graphs and their stop sweeps; findings there carry the class suffix -libds; the input value must be unchanged afterwards. " +
 			"Schedule perturbation (Gosched / spinning / 30us sleeps in the datasource or the consumer, GOMAXPROCS 1,2,4,default) never feeds a verdict. " +
 			"One evaluation = one iteration (scenario). A signature is (stop kind, acyclic-with-pairs | flat | cyclic as seen from the requests, size classes of scope / request list / emitted sequence, repeated or history-less ids requested, enumerated or random graph); " +
 			"it is listed once per case, so the histogram counts cases, not scenarios; iterations whose requests name no relation with a history are trivial.",
